@@ -30,6 +30,10 @@ func (mp *ConsensusMessagesFilter) HandleConsensusMessage(message interfaces.Con
 		return errors.Errorf("Out of committee - ignoring message %s H=%d V=%d", message.MessageType(), message.BlockHeight(), message.View())
 	}
 
+	if err := validateSignedMessageType(message); err != nil {
+		return err
+	}
+
 	switch message := message.(type) {
 	case *interfaces.PreprepareMessage:
 		mp.handler.HandlePrePrepare(message)
@@ -59,5 +63,29 @@ func (mp *ConsensusMessagesFilter) HandleConsensusMessage(message interfaces.Con
 		panic(fmt.Sprintf("unknown message type: %T", message))
 	}
 
+	return nil
+}
+
+// the message type inside the signed header must be the type of the message it arrived as,
+// otherwise a signature given for one phase could be replayed as a message of another phase
+func validateSignedMessageType(message interfaces.ConsensusMessage) error {
+	var expected protocol.MessageType
+	switch message.(type) {
+	case *interfaces.PreprepareMessage:
+		expected = protocol.LEAN_HELIX_PREPREPARE
+	case *interfaces.PrepareMessage:
+		expected = protocol.LEAN_HELIX_PREPARE
+	case *interfaces.CommitMessage:
+		expected = protocol.LEAN_HELIX_COMMIT
+	case *interfaces.ViewChangeMessage:
+		expected = protocol.LEAN_HELIX_VIEW_CHANGE
+	case *interfaces.NewViewMessage:
+		expected = protocol.LEAN_HELIX_NEW_VIEW
+	default:
+		return nil
+	}
+	if message.MessageType() != expected {
+		return errors.Errorf("signed header has message type %s but the message is a %s - ignoring message H=%d V=%d", message.MessageType(), expected, message.BlockHeight(), message.View())
+	}
 	return nil
 }
